@@ -75,6 +75,11 @@ def make_runs(chk):
         if rng.random() < 0.2:
             env["DEBUG_" + rng.choice(DBG).upper()] = "1"
         add(j.script, j.stack, j.flags, j.z, mode, opts, env)
+    # the empty script: the initial stack is the result
+    for stack in ([], [b"\x01", b"\x02"], [b"", b"\x05"]):
+        for mode in modes:
+            for opts in ([], ["-q"]):
+                add(b"", stack, STANDARD, False, mode, opts, {})
     for script, stack in exc:
         for mode in modes:
             for opts in ([], ["-q"], ["--debug=sighash,signing"]):
@@ -105,6 +110,23 @@ def run(chk):
         res = one_run(exe, b"\x51", [], "", False, mode, ["-v"], {})
         ev = {"e": "VerboseRefused", "mode": mode, "code": res["code"] if res["code"] is not None else -1, "sig": res["signal"] or 0, "stdout": res["stdout"]}
         vruns.append((RecJob("VerboseRefused", ev), [ev]))
+    # signature-checking spends run non-interactively (digest logging paths, ContinueScript on real spends)
+    import gen_spend
+    spends = gen_spend.spend_jobs(chk, prefix="cs", n_per_cell=1, muts=["valid", "wrong-key", "annex"])
+    import c02, gen_sig
+    def do_spend(ij):
+        i, j = ij
+        mode = ["stdin-tty/stdout-pipe", "tty/tty+DEBUG_SET_PIPE_OUT"][i % 2]
+        opts = [[], ["--debug=sighash"], ["--debug=sighash,signing,taproot"], ["-q"]][i % 4]
+        args = [exe] + opts + ["--tx=" + j.txctx["tx"], "--txin=" + j.txctx["txin"]] + (["--select=%d" % j.txctx["select"]] if j.txctx.get("select", -1) >= 0 else [])
+        env = {"DEBUG_SET_PIPE_OUT": "1"} if "DEBUG_SET" in mode else {}
+        res = ptydrv.run_cli(args, stdin_tty=True, stdout_tty=("DEBUG_SET" in mode), env=env)
+        op = j.open_event(); op["cli"] = True; op["cmp"] = ["stack", "err"]; op["id"] = "cs%d:%s" % (i, j.id); op["mode"] = mode; op["opts"] = opts
+        ev = {"e": "CliRun", "code": res["code"] if res["code"] is not None else -1, "sig": res["signal"] if isinstance(res["signal"], int) else (99 if res["signal"] else 0),
+              "stdout": res["stdout"].split("\n")[:-1] if res["code"] == 0 else [], "err": res["stderr"][-400:]}
+        return (RecJob(op["id"], op), [op, ev])
+    with cf.ThreadPoolExecutor(max_workers=16) as ex:
+        recorded += list(ex.map(do_spend, enumerate(spends)))
     divs = chk.validate_recorded("Trace_Session", recorded, "c08")
     divs += chk.validate_recorded("Trace_Calls", vruns, "c08v")
     chk.classify(divs)
